@@ -1,4 +1,4 @@
-import GSProofs.Lemmas.ResponderPrepare
+import GSProofs.Lemmas.ResponderConcurrent
 /-!
 # C03 — Responder output mirrors its own selector traversal
 
@@ -212,6 +212,26 @@ theorem status_partial_iff (c : Cid) (kids : List LT) (has : Cid → Bool) (w : 
       rw [hpr] at this; cases this
     · exact h3
 
+/-- **C03, status, on the wire.**  For every batching of an accepted request's transactions: the last
+status code on the wire is complete-full iff no metadata entry on the wire is marked missing; and if
+the responder lacks the root, the wire carries content-not-found and the single missing root entry. -/
+theorem status_wire (s : Store) (hs : s.corrupt = []) (lt : LT) (p : PeerTracker) (r : Req)
+    (e : Ext) (w : Want) (hw : e.want? = some w) (hf : Fresh p r)
+    (groups : List (List Txn)) (hg : Batching groups (respondTxns s lt p r e)) :
+    (finalStatus (groups.map buildMsg) = some .completedFull ↔
+      ∀ it ∈ (groups.map buildMsg).flatMap Msg.annotate, it.present = true) ∧
+    (∀ c kids, lt = .node c kids → s.has c = false →
+      finalStatus (groups.map buildMsg) = some .contentNotFound ∧
+      (groups.map buildMsg).flatMap Msg.annotate = [⟨c, false, false⟩]) := by
+  rw [final_status s hs lt p r e w hw hf groups hg, refines s hs lt p r e w hw hf groups hg]
+  refine ⟨?_, ?_⟩
+  · simp only [Option.some.injEq]
+    exact status_full_iff lt s.has w (inUse p w.key)
+  · intro c kids hlt hc
+    subst hlt
+    rw [status_root_missing c kids s.has w (inUse p w.key) hc]
+    exact ⟨rfl, rfl⟩
+
 /-! ### the scripted batching of the harness is a batching -/
 
 theorem batchFrom_flatten (script : List Nat) : ∀ (fuel pos : Nat) (ts : List Txn),
@@ -244,6 +264,135 @@ theorem batch_is_batching (script : List Nat) (pos : Nat) (txns : List Txn) :
     cases t with
     | nil => simpa [List.filter] using ih
     | cons o os => simp [List.filter, ih]
+
+/-! ### paused / resumed requests, and the other requests of the same peer
+
+`runRequest s lt p r hp e stop0 env0 sched` (GSProofs/Lemmas/ResponderConcurrent.lean) is the life of
+an accepted request built from the model's `startRequest` / `resumeRequest`: the request hook may
+pause it at once (`hp`); every phase has its own stop condition (pause by the k-th block hook call
+or by a `PauseResponse` command during the k-th block load — so a pause can fall on any block, and
+there can be any number of pauses); during each pause the rest of the responder performs an
+arbitrary list of link tracker operations of OTHER requests of the same peer (`env0`, then the
+lists in `sched`).  The result is the final tracker, all transactions, and a flag "finished". -/
+
+theorem finalOp_spec (c : Cid) (kids : List LT) (has : Cid → Bool) :
+    finalOp (!has c) (false || ((LT.node c kids).visit has).any (fun e => !e.2))
+      = [.status (specStatus ((LT.node c kids).visit has))] := by
+  by_cases hc : has c = true
+  · simp only [finalOp, LT.visit, hc, if_true, Bool.not_true, Bool.false_eq_true, if_false, Bool.false_or,
+      List.any_cons, specStatus_present, any_not_eq_not_all]
+    cases (visitAll has kids).all (fun e => e.2) <;> simp
+  · have hc' : has c = false := by simpa using hc
+    simp only [finalOp, LT.visit, hc', Bool.not_false, if_true, Bool.false_eq_true, if_false, specStatus]
+    rfl
+
+/-- **C03 for paused requests with concurrent requests in ANY scope (also the same one).**
+A finished request's transactions are `pre` followed by the transaction of the specified final
+status; without the `RequestPaused` statuses, `pre` is exactly one block operation per link of the
+traversal over the responder's store, in traversal order, marked present/missing, numbered
+1, 2, …, interleaved (`sch`) with the environment's operations that happened before each link; and
+(`SendRule`) the block of a link is attached iff it is present, its number exceeds
+do-not-send-first-blocks, and at the moment of that load no request in progress in the dedup scope
+(this one included, its do-not-send-cids list included) has traversed the cid with its block.
+Metadata order, present flags and final status do not depend on the environment at all. -/
+theorem paused_concurrent (s : Store) (hs : s.corrupt = []) (lt : LT) (p : PeerTracker) (r : Req)
+    (e : Ext) (w : Want) (hw : e.want? = some w) (hf : Fresh p r)
+    (hp : Bool) (stop0 : Stop) (env0 : List Op) (sched : List (Stop × List Op))
+    (hstop0 : isCancel stop0 = false) (hstops : ∀ x ∈ sched, isCancel x.1 = false)
+    (hn : NotMine r (env0 ++ sched.flatMap (·.2)))
+    (hd : (runRequest s lt p r hp e stop0 env0 sched).2.2 = true) :
+    ∃ sch rest pre,
+      sch.map (·.2) = lt.visit s.has ∧
+      sch.flatMap (·.1) ++ rest = env0 ++ sched.flatMap (·.2) ∧
+      (runRequest s lt p r hp e stop0 env0 sched).2.1
+        = pre ++ [[.status (respondSpec lt s.has w (inUse p w.key)).2]] ∧
+      strip pre = (threadEnv r (prepareQuery p r { paused := hp } e).1 sch).2 ∧
+      SendRule r w.skip (prepareQuery p r { paused := hp } e).1 0 sch (strip pre) := by
+  obtain ⟨p1, hprep, _, _, hcnt, hskip, hmiss, _⟩ := prepare_ok' p r e w hw hf hp
+  obtain ⟨c, kids⟩ := lt
+  have hn0 : NotMine r env0 := fun o ho => hn o (List.mem_append_left _ ho)
+  have hn1 : NotMine r (sched.flatMap (·.2)) := fun o ho => hn o (List.mem_append_right _ ho)
+  have hst : St s { trav := { todo := [LT.node c kids] } } ((LT.node c kids).visit s.has) (!s.has c) :=
+    St.fresh c kids 0 0
+  have key : ∀ (tl : PeerTracker × List Txn × Bool) (t0 : Txn) (sch : List (List Op × (Cid × Bool))) (rest : List Op)
+      (pre : List Txn), t0.filter notPaused = [] →
+      sch.map (·.2) = (LT.node c kids).visit s.has → sch.flatMap (·.1) ++ rest = env0 ++ sched.flatMap (·.2) →
+      tl.2.1 = pre ++ [finalOp (!s.has c) (missOf p1 r || ((LT.node c kids).visit s.has).any (fun e => !e.2))] →
+      strip pre = (threadEnv r p1 sch).2 →
+      ∃ sch rest pre',
+        sch.map (·.2) = (LT.node c kids).visit s.has ∧ sch.flatMap (·.1) ++ rest = env0 ++ sched.flatMap (·.2) ∧
+        [t0] ++ tl.2.1 = pre' ++ [[.status (respondSpec (LT.node c kids) s.has w (inUse p w.key)).2]] ∧
+        strip pre' = (threadEnv r p1 sch).2 ∧ SendRule r w.skip p1 0 sch (strip pre') := by
+    intro tl t0 sch rest pre ht0 h1 h2 h3 h4
+    have hstrip : strip ([t0] ++ pre) = (threadEnv r p1 sch).2 := by
+      rw [strip_append, h4]; simp [strip, ht0]
+    refine ⟨sch, rest, [t0] ++ pre, h1, h2, ?_, hstrip, ?_⟩
+    · rw [h3, hmiss, finalOp_spec, List.append_assoc]; rfl
+    · rw [hstrip]
+      have hnm : NotMine r (sch.flatMap (·.1)) := fun o ho => hn o (by rw [← h2]; exact List.mem_append_left _ ho)
+      have := threadEnv_sendRule r sch p1 hnm
+      rwa [hskip, hcnt] at this
+  cases hp with
+  | false =>
+    simp only [Bool.false_eq_true, if_false] at hprep
+    rw [runRequest_queued s _ p p1 r e stop0 env0 sched hprep] at hd ⊢
+    simp only [hprep]
+    have hstops' : ∀ x ∈ (stop0, env0) :: sched, isCancel x.1 = false := by
+      intro x hx; rcases List.mem_cons.mp hx with rfl | hx
+      · exact hstop0
+      · exact hstops x hx
+    have hn' : NotMine r (((stop0, env0) :: sched).flatMap (·.2)) := by simpa [List.flatMap_cons] using hn
+    obtain ⟨sch, rest, pre, h1, h2, h3, h4⟩ := phases_ops s hs r ((stop0, env0) :: sched) p1 [] _ _ _ hst hstops'
+      (fun _ h => by cases h) hn' (by simpa [runFrom] using hd)
+    simp only [runFrom, List.nil_append, List.flatMap_cons] at h2 h3
+    exact key _ [] sch rest pre rfl h1 h2 h3 h4
+  | true =>
+    simp only [if_true] at hprep
+    rw [runRequest_hookPaused s _ p p1 r e stop0 env0 sched hprep] at hd ⊢
+    simp only [hprep]
+    obtain ⟨sch, rest, pre, h1, h2, h3, h4⟩ := phases_ops s hs r sched p1 env0 _ _ _ hst hstops hn0 hn1 hd
+    exact key _ [.status .paused] sch rest pre rfl h1 h2 h3 h4
+
+/-- **C03 for paused and resumed requests (`refines_paused`).**  If what the other requests of the
+peer do during the pauses stays out of this request's dedup scope (`EnvScopes`: every
+tracker-touching operation is by a request whose dedup key differs; their keys are followed through
+their own dedup-by-key / finish operations starting from the peer's key map at arrival), then a
+response paused at any blocks and resumed any number of times puts on the wire — for every batching
+into messages — exactly the metadata, block attachments and final status of the uninterrupted
+response (`respondSpec`); every block travels with its metadata entry. -/
+theorem refines_paused (s : Store) (hs : s.corrupt = []) (lt : LT) (p : PeerTracker) (r : Req)
+    (e : Ext) (w : Want) (hw : e.want? = some w) (hf : Fresh p r)
+    (hp : Bool) (stop0 : Stop) (env0 : List Op) (sched : List (Stop × List Op))
+    (hstop0 : isCancel stop0 = false) (hstops : ∀ x ∈ sched, isCancel x.1 = false)
+    (hsc : EnvScopes r w.key p.dedupKeys (env0 ++ sched.flatMap (·.2)))
+    (hd : (runRequest s lt p r hp e stop0 env0 sched).2.2 = true)
+    (groups : List (List Txn)) (hg : Batching groups (runRequest s lt p r hp e stop0 env0 sched).2.1) :
+    (groups.map buildMsg).flatMap Msg.annotate = (respondSpec lt s.has w (inUse p w.key)).1 ∧
+    finalStatus (groups.map buildMsg) = some (respondSpec lt s.has w (inUse p w.key)).2 ∧
+    ∀ g ∈ groups, (buildMsg g).stray = [] := by
+  obtain ⟨sch, rest, pre, h1, h2, h3, h4, _⟩ :=
+    paused_concurrent s hs lt p r e w hw hf hp stop0 env0 sched hstop0 hstops (EnvScopes_notMine hsc) hd
+  obtain ⟨p1, hprep, hk, hag, hcnt, hskip, _, hrc⟩ := prepare_ok' p r e w hw hf hp
+  simp only [hprep] at h4
+  have hex : (fun c => rcOf p1 r c != 0) = (fun c => w.ignore.contains c || inUse p w.key c) := funext hrc
+  have hsc' : EnvScopes r w.key p.dedupKeys (sch.flatMap (·.1)) := EnvScopes_append (by rw [h2]; exact hsc)
+  have hops : pre.flatten.filter notPaused = (mkTxns 0 (respondSpec lt s.has w (inUse p w.key)).1).flatten := by
+    have := threadEnv_other r w.key sch p1 p.dedupKeys hk hag hsc'
+    rw [hcnt, hskip, hex, h1] at this
+    simp only [respondSpec]
+    rw [← this, ← h4]; rfl
+  have hall : groups.flatten.flatten = pre.flatten ++ [.status (respondSpec lt s.has w (inUse p w.key)).2] := by
+    rw [hg, h3]; simp
+  have hgoodpre : Good pre.flatten := Good_of_filter _ (by rw [hops]; exact Good_attach _ _ _ _ _ _)
+  have hgood : Good groups.flatten.flatten := by rw [hall]; exact Good_snoc_status _ _ hgoodpre
+  refine ⟨?_, ?_, ?_⟩
+  · rw [annotate_groups groups hgood, hall, itemsOf_append, ← itemsOf_filter pre.flatten, hops, itemsOf_mkTxns]
+    simp [itemsOf]
+  · rw [finalStatus_groups, hall, lastStatusOp_append]
+    simp [lastStatusOp]
+  · intro g hgm
+    have hgood' : Good (groups.map List.flatten).flatten := by rw [← List.flatten_flatten]; exact hgood
+    exact stray_buildMsg g (Good_of_mem_flatten hgood' _ (List.mem_map_of_mem hgm))
 
 /-! ### literal reading of "not already sent" -/
 
@@ -407,6 +556,36 @@ this non-trivial state (another request in progress in the same scope, all three
 missing block, a shared block, a batching that splits and merges transactions). -/
 example :=
   refines exStore rfl exLT exTracker 7 exExt exWant rfl exFresh _ (batch_is_batching [2, 1] 0 _)
+
+/-- a request of another dedup scope (request 9, key 6) working during the pauses: joins its scope,
+traverses blocks 2 and 6, finishes. -/
+def exEnvOther : List Op := [.dedup 9 6, .trav 9 2 true, .trav 9 6 true, .finish 9]
+
+/-- the hypotheses of `refines_paused` / `paused_concurrent` are jointly satisfiable: the request
+hook pauses the request at once, the first running phase pauses at the 2nd block hook call, the next at
+the 5th block load (a `PauseResponse` command), the last runs to the end; another request works in
+another scope during the second pause; the request finishes. -/
+example :=
+  refines_paused exStore rfl exLT exTracker 7 exExt exWant rfl exFresh true (.hookPause 2) []
+    [(.sigPause 5, exEnvOther), (.never, []), (.never, [])] (by decide) (by decide) (by decide) (by decide)
+    _ (batch_is_batching [2, 1] 0 _)
+
+/-- a request of the SAME dedup scope (request 8 joins key 5) traversing block 6 during a pause. -/
+def exEnvSame : List Op := [.dedup 8 5, .trav 8 6 true]
+
+/-- the other-scope hypothesis of `refines_paused` is needed, and `paused_concurrent` says what happens
+instead: with request 8 traversing block 6 in the same scope while request 7 is paused (after its 2nd
+block hook call), block 6 is no longer attached to request 7's last link — the send rule reads the
+reference count of the moment; metadata and status are unchanged. -/
+theorem refines_paused_same_scope_counterexample :
+    ¬ EnvScopes 7 (some 5) exTracker.dedupKeys exEnvSame ∧
+    (runRequest exStore exLT exTracker 7 false exExt (.hookPause 2) exEnvSame [(.never, [])]).2.2 = true ∧
+    ((batch [1] 0 (runRequest exStore exLT exTracker 7 false exExt (.hookPause 2) exEnvSame [(.never, [])]).2.1).map
+        buildMsg).flatMap Msg.annotate
+      = [⟨0, true, false⟩, ⟨2, true, false⟩, ⟨3, false, false⟩, ⟨4, true, false⟩, ⟨2, true, false⟩, ⟨6, true, false⟩] ∧
+    (respondSpec exLT exStore.has exWant (inUse exTracker (some 5))).1
+      = [⟨0, true, false⟩, ⟨2, true, false⟩, ⟨3, false, false⟩, ⟨4, true, false⟩, ⟨2, true, false⟩, ⟨6, true, true⟩] := by
+  refine ⟨?_, ?_, ?_, ?_⟩ <;> decide
 
 /-- test (one concrete run): root skipped, block 2 in use by request 1, 3 missing (its subtree is not
 visited), 4 ignored, 2 again, 6 sent; status partial — through the batching [2,1]. -/
